@@ -72,6 +72,9 @@ def main():
     wt = f"{root}/{pid}"; out = f"{wt}/OUT"
     diff = f"{out}/{var}.diff"; demo = f"{out}/{var}_demo.rs"; md = f"{out}/{var}.md"
     dest = f"/verif/seeded/{pid}-{var}{suffix}"
+    if not os.path.exists(diff):
+        # the scratch worktree is gone: re-run detection from the kept patch
+        diff = f"{dest}/patch.diff"; demo = f"{dest}/demo.rs"; md = f"{dest}/description.md"; skip = True
     meta = {"property": pid, "variant": var, "confirmed": {}, "checks": {}}
     if os.path.exists(f"{dest}/meta.json"):
         meta = json.load(open(f"{dest}/meta.json"))
@@ -117,8 +120,9 @@ def main():
         sh("git checkout -q -- .", cwd="/repo")
         sh("rm -f /verif/replays/*.json")
     os.makedirs(dest, exist_ok=True)
-    shutil.copy(diff, f"{dest}/patch.diff"); shutil.copy(demo, f"{dest}/demo.rs")
-    if os.path.exists(md): shutil.copy(md, f"{dest}/description.md")
+    if os.path.abspath(diff) != os.path.abspath(f"{dest}/patch.diff"):
+        shutil.copy(diff, f"{dest}/patch.diff"); shutil.copy(demo, f"{dest}/demo.rs")
+        if os.path.exists(md): shutil.copy(md, f"{dest}/description.md")
     meta["needs_to_manifest"] = open(md).read()[:1500] if os.path.exists(md) else ""
     meta["detected_by"] = sorted(k for k, v in meta["checks"].items() if v["exit"] == 1)
     json.dump(meta, open(f"{dest}/meta.json", "w"), indent=1)
